@@ -1,5 +1,6 @@
 SPECIFICATION Spec
 CONSTANTS NEvents = 2
   Pauses = 2
+  DispatchLock = FALSE
 INVARIANT Quiescent
 PROPERTY NoStartWhilePaused
